@@ -238,6 +238,9 @@ def gen(rnd: random.Random, opts: dict) -> Design:
     if rnd.random() < opts.get("p_double_conflict", 0.1):
         add_double_conflict_pattern(D, rnd)
         keys = list(D.bodies)
+    if rnd.random() < opts.get("p_lifted_priority", 0.1):
+        add_lifted_priority_pattern(D, rnd)
+        keys = list(D.bodies)
     if rnd.random() < opts.get("p_deepchain", 0.15):
         add_deep_chain_pattern(D, rnd)
         keys = list(D.bodies)
@@ -556,6 +559,46 @@ def add_double_conflict_pattern(D, rnd):
     D.confl.append((hi, lo, Priority.LEFT) if rnd.random() < 0.5 else (lo, hi, Priority.RIGHT))
     # the third transaction is only ordered after the pair, it conflicts with nobody
     D.sb.append((early.key, third.key, False))
+    return True
+
+
+def add_lifted_priority_pattern(D, rnd):
+    """Forced layout class: a (prioritised) conflict declared between two METHODS that each have two calling transactions: the relation must be
+    lifted to all four pairs of callers, not only to callers with equal index."""
+    first = D.nt + D.tnext
+    D.tnext += 4
+    tkeys = []
+    for k in range(4):
+        b = B("t", first + k)
+        b.pos = ((("body", "t", first + k), 0),)
+        D.nbits += 1
+        b.rdy = D.nbits - 1
+        D.bodies[b.key] = b
+        tkeys.append(b.key)
+        D.order.insert(rnd.randrange(len(D.order) + 1), b)
+    m0 = D.nm
+    D.nm += 2
+    for idx in (m0, m0 + 1):
+        D.meth.append(dict(has_in=False, nonex=True, validate=None, combiner=None, single_caller=False))  # nonexclusive: the callers of one side do not conflict
+        b = B("m", idx)
+        b.pos = ((("body", "m", idx), 0),)
+        D.nbits += 1
+        b.rdy = D.nbits - 1
+        D.bodies[b.key] = b
+        D.order.insert(rnd.randrange(len(D.order) + 1), b)
+    D.deford = {}
+
+    def pre(b):
+        D.deford[b.key] = len(D.deford)
+        for st in walk(b.stmts):
+            if st[0] == "body":
+                pre(st[1])
+    for b in D.order:
+        pre(b)
+    for k, tk in enumerate(tkeys):
+        t = D.bodies[tk]
+        t.stmts.append(("call", new_site(D, t, m0 + (k % 2))))  # t0, t2 call the first method, t1, t3 the second
+    D.confl.append((("m", m0), ("m", m0 + 1), rnd.choice([Priority.LEFT, Priority.RIGHT, Priority.UNDEFINED])))
     return True
 
 
